@@ -211,7 +211,13 @@ pub fn emit_spec(s: &Spec, extra_container: &str, magic_fields: &str, magic_obse
     }
     match &s.body {
         Body::Struct(fs) => {
-            out.push_str(&format!("pub struct {} {{\n{}{}}}\n", name, magic_fields, emit_fields(fs, s.id, &name, "pub ")));
+            if fs.is_empty() && magic_fields.is_empty() && s.id % 3 != 0 && s.tr != Trait::FromMeta {
+                // an element-level receiver without fields may be written as a unit struct (for FromMeta a unit struct is another
+                // thing: it takes the bare word and nothing else)
+                out.push_str(&format!("pub struct {};\n", name));
+            } else {
+                out.push_str(&format!("pub struct {} {{\n{}{}}}\n", name, magic_fields, emit_fields(fs, s.id, &name, "pub ")));
+            }
             out.push_str(&default_fns(fs, &name, 3000));
             // Marker / Default / helper functions (only meaningful without magic fields)
             if s.magic.is_empty() {
@@ -559,6 +565,19 @@ pub fn c20_extras(first_id: usize, names: &[&str]) -> Vec<(usize, String)> {
         "#[derive(::darling::FromMeta)]\npub enum MV{id} {{ Unit, St {{ #[darling(and_then = \"mv{id}_port\")] port: u16, #[darling(map = \"mv{id}_widen\")] wide: u64 }} }}\nfn mv{id}_port(s: ::std::string::String) -> ::darling::Result<u16> {{ s.parse().map_err(|_| ::darling::Error::custom(\"port\")) }}\nfn mv{id}_widen(v: u8) -> u64 {{ v as u64 }}\n",
         id = id
     )));
+    id += 1;
+    // unit-struct receivers (`struct R;`) for every trait, with and without options that still apply
+    for tr in traits.iter() {
+        let attrs = if *tr == "FromMeta" { "" } else { "#[darling(attributes(ata))]\n" };
+        out.push((id, format!("#[derive(::darling::{tr})]\n{attrs}pub struct UU{id};\n", tr = tr, attrs = attrs, id = id)));
+        id += 1;
+        if *tr != "FromAttributes" {
+            let attrs2 = if *tr == "FromMeta" { "#[darling(allow_unknown_fields)]\n" } else { "#[darling(allow_unknown_fields)]\n" };
+            out.push((id, format!("#[derive(::darling::{tr})]\n{attrs}pub struct UV{id};\n", tr = tr, attrs = attrs2, id = id)));
+            id += 1;
+        }
+    }
+    out.push((id, format!("#[derive(::darling::FromDeriveInput)]\n#[darling(supports(struct_named, enum_any))]\npub struct US{id};\n", id = id)));
     id += 1;
     // hostile names inside struct variants
     let vfields: String = pool.iter().take(12).map(|nm| format!("{}: u8, ", nm)).collect();
